@@ -43,6 +43,10 @@ fn job_entries(prop: &str, thorough: bool) -> Vec<reg::Entry> {
         "C07" | "C08" | "C14" => {
             let mut v = reg::family("lib");
             v.extend(reg::family("types"));
+            if prop == "C08" {
+                // files written by older definitions, read by newer ones
+                v.extend(reg::family("hist"));
+            }
             v
         }
         "C06" => {
@@ -83,6 +87,11 @@ fn job_child(prop: &str, thorough: bool, k: usize, n: usize, resume: (i64, u64))
     let entries = job_entries(prop, thorough);
     let hist = if matches!(prop, "C03" | "C18") { Some(histcheck::Hist::new(thorough, &entries)) } else { None };
     let is_fault = matches!(prop, "C07" | "C08" | "C14");
+    // every state of the sweeps and of the malformed-input engine is a short operation on a small
+    // input: one that does not come back is a hang (the fault engines have long single states)
+    if !is_fault {
+        vcommon::child::set_watchdog(if prop == "C06" { 15 } else { 300 });
+    }
     let items = if prop == "C06" {
         malformed::items(&entries, thorough)
     } else if is_fault { faults::items(prop, &entries, thorough) } else { hist.as_ref().map(|h| h.nodes.len()).unwrap_or(entries.len()) };
@@ -183,7 +192,7 @@ fn run_sweep(run: &mut Run, prop: &'static str) -> Map<String, Value> {
                 return;
             }
             g.0.violation(vcommon::Violation {
-                oracle: "process_abort".into(),
+                oracle: if c.status.contains("exit status: 142") || c.status.contains("(36352)") { "hang".into() } else { "process_abort".into() },
                 tags: vcommon::tags(&[
                     ("context", case["context"].as_str().unwrap_or("").to_string()),
                     ("rust_type", case["rust_type"].as_str().unwrap_or("").to_string()),
